@@ -59,6 +59,7 @@ def generate(seed, tier):
         ph = Q.gen_phrase_from_docs(qr, alldocs, "t")
         if ph is not None:
             rec["queries"].append(ph)
+    rec["hold_searcher"] = random.Random("%s/hold" % seed).random() < 0.4
     return rec
 
 
@@ -107,10 +108,21 @@ PATHS = ("unlimited", "limit1", "limit2", "limit5", "unscored", "sorted", "sorte
          "docs_for_query", "query_docs", "query_docs_top", "results_docs")
 
 
-def check_queries(s, ix, qspecs, where, counters):
+class _keep_open(object):
+    def __init__(self, srch):
+        self.srch = srch
+
+    def __enter__(self):
+        return self.srch
+
+    def __exit__(self, *a):
+        return False
+
+
+def check_queries(s, ix, qspecs, where, counters, srch=None):
     mi = s.model
     docs = mi.docs
-    with ix.searcher() as srch:
+    with (ix.searcher() if srch is None else _keep_open(srch)) as srch:
         reader = srch.reader()
         for spec in qspecs:
             try:
@@ -164,14 +176,40 @@ def path_family(path):
 def make_hooks(s, record):
     counters = {"evals": 0, "nonempty": 0}
 
+    held = {"srch": None, "ix": None}
+
+    def refreshed(actor):
+        """One more access path: a long-lived searcher that answered queries under earlier
+        generations (warm caches) and is brought up to date with refresh()."""
+        if not record.get("hold_searcher") or actor.ix is None:
+            return None
+        try:
+            if held["srch"] is None or held["ix"] is not actor.ix:
+                held["srch"] = actor.ix.searcher()
+            else:
+                held["srch"] = held["srch"].refresh()
+        except (SimAbort, SimKilled, HarnessError):
+            raise
+        except Exception as e:  # noqa
+            raise Violation("search_raised", "refresh() raised %s: %s" % (type(e).__name__, e), sig="refresh_raised:" + exc_sig(e))
+        held["ix"] = actor.ix
+        s.count("refreshed_searcher_checks")
+        return held["srch"]
+
     def after_commit(actor, probe_only=False):
         s.count("probes")
         # one cheap sanity probe per commit; the full set runs at the end
         check_queries(s, actor.ix, record["queries"][:2], "after commit %d" % s.model.generation, counters)
+        hs = refreshed(actor)
+        if hs is not None:
+            check_queries(s, actor.ix, record["queries"][:3], "after commit %d (refreshed searcher)" % s.model.generation, counters, srch=hs)
 
     def finish(actor):
         if actor.ix is not None:
             check_queries(s, actor.ix, record["queries"], "final state (same process)", counters)
+            hs = refreshed(actor)
+            if hs is not None:
+                check_queries(s, actor.ix, record["queries"], "final state (refreshed searcher)", counters, srch=hs)
         actor.ix = None
         s.new_process("final")
         if s.index_exists():
